@@ -40,8 +40,6 @@ func (e *FunctionCallError) Error() string {
 	return e.SourceError.Error()
 }
 
-const errorType = "error"
-
 // NewCallableFunction creates a CallableFunction schema type for the strictly typed function.
 //
 // - The handler types must match the input and output types specified.
@@ -95,9 +93,9 @@ func validateTypedReturnFunc(parsedHandler reflect.Value, errorExpected bool, ou
 	// Validate error return
 	if errorExpected {
 		// Validate the last type as error
-		handlerLastTypeName := parsedHandler.Type().Out(returnCount - 1).Name()
-		if handlerLastTypeName != errorType {
-			return fmt.Errorf("expected last return type from handler to be error, but instead found '%s'", handlerLastTypeName)
+		handlerLastType := parsedHandler.Type().Out(returnCount - 1)
+		if handlerLastType != reflect.TypeOf((*error)(nil)).Elem() {
+			return fmt.Errorf("expected last return type from handler to be error, but instead found '%s'", handlerLastType.Name())
 		}
 	}
 
@@ -141,7 +139,7 @@ func NewDynamicCallableFunction(
 	switch {
 	case returnCount != 2:
 		return nil, fmt.Errorf("expected dynamic handler to have two returns, one with any type, and one with error type, but got %d return types", returnCount)
-	case parsedHandler.Type().Out(1).Name() != errorType:
+	case parsedHandler.Type().Out(1) != reflect.TypeOf((*error)(nil)).Elem():
 		return nil, fmt.Errorf("expected additional return type to be an error return, but got %s", parsedHandler.Type().Out(1).Name())
 	case parsedHandler.Type().Out(0).Kind() != reflect.Interface:
 		return nil, fmt.Errorf("expected 'any' return type for handler, but got %s", parsedHandler.Type().Out(0))
